@@ -152,7 +152,7 @@ def get_build(flavor, quiet=False):
         if os.path.exists(os.path.join(bdir, "DONE")):
             os.utime(os.path.join(bdir, "DONE"))
             return bdir
-        # drop stale builds of this flavor: keep the 2 most recently used others (a background run from a
+        # drop stale builds of this flavor: keep the 4 most recently used others (a background run from a
         # snapshot of /verif, or a scratch /repo, may be using them) unless they were not used for 3 hours
         others = []
         for d in os.listdir(os.path.join(WORK, "build")):
@@ -165,7 +165,7 @@ def get_build(flavor, quiet=False):
                         shutil.rmtree(dp, ignore_errors=True)   # an abandoned partial build
         others.sort(reverse=True)
         for k, (mt, dp) in enumerate(others):
-            if k >= 2 or time.time() - mt > 3 * 3600:
+            if k >= 4 or time.time() - mt > 3 * 3600:
                 shutil.rmtree(dp, ignore_errors=True)
         shutil.rmtree(bdir, ignore_errors=True)
         os.makedirs(os.path.join(bdir, "lib"))
